@@ -72,9 +72,13 @@ def strategy(tier):
     wire = st.one_of(st.just([]), st.lists(st.integers(0, len(WIRE_LABELS) - 1), min_size=1, max_size=8))
     overlap = st.one_of(st.none(), st.none(), st.tuples(st.sampled_from([0, 10, 50, 100, 150, 250]), st.integers(0, 4)).map(list))
     pre = st.one_of(st.just(0), st.integers(0, 70), st.integers(54, 64))
-    return st.builds(lambda s, w, h, k, ov, pr: dict({"snapshot": s, "wire": w, "history": h, "stack": k}, **({"wc_overlap": ov} if ov and k == "async" else {}),
-                                                     **({"pre": pr} if pr else {})),
-                     st.integers(0, n - 1), wire, st.lists(step, min_size=1, max_size=10), st.sampled_from(["async", "async", "blocking"]), overlap, pre)
+    # a spa that takes its time to acknowledge (always inside the protocol timeout of 4 s), in the idle or the active timing table
+    think = st.sampled_from([0, 0, 0, 0, 500, 1500, 3000])
+    return st.builds(lambda s, w, h, k, ov, pr, th, act: dict({"snapshot": s, "wire": w, "history": h, "stack": k}, **({"wc_overlap": ov} if ov and k == "async" else {}),
+                                                              **({"pre": pr} if pr else {}), **({"think_ms": th} if th and k == "async" else {}),
+                                                              **({"active": True} if act and k == "async" else {})),
+                     st.integers(0, n - 1), wire, st.lists(step, min_size=1, max_size=10), st.sampled_from(["async", "async", "blocking"]), overlap, pre,
+                     think, st.booleans())
 
 
 # ------------------------------------------------------------------ the model spa
@@ -205,6 +209,7 @@ class ModelSpa(vworld.SimPeer):
         super().__init__(world, sim, addr)
         self.model = SpaModel(sim, pair)
         self.model.now = lambda: world.clock.t
+        self.think = 0.0     # seconds between a command's arrival and the acknowledgement + echo
 
     commands = property(lambda self: self.model.commands)
     block = property(lambda self: self.model.block)
@@ -220,7 +225,15 @@ class ModelSpa(vworld.SimPeer):
         if out is None:
             return super().receive(data, client_addr)
         self.received.append((self.world.clock.t, data, client_addr))
-        self.world.deliver_from_spa(self, out)
+        if self.think > 0:
+            self.world.in_flight += 1
+
+            def answer():
+                self.world.in_flight -= 1
+                self.world.deliver_from_spa(self, out)
+            self.world.loop.call_later(self.think, answer)
+        else:
+            self.world.deliver_from_spa(self, out)
 
 
 def _rewire(sim, pair, wire):
@@ -305,13 +318,22 @@ def plan_command(res, info, fac, spa, pair, model, cmd, before, wc_calls):
         lo, hi = (15, 40) if unit == "C" else (59, 104)
         t = lo + (int(cmd[1]) % (hi - lo + 5)) + int(cmd[2]) / 10.0
         what = f"heater.set_target_temperature({t}) in {unit}"
+        # exact rational arithmetic on the tenths: a value the device can hold exactly (every 0.5 C, every 0.1 F) must be written
+        # as exactly that word and read back exactly; anything else within one device step
+        from fractions import Fraction
+        tenths = Fraction(int(round(t * 10)), 10)
+        word = tenths * 18 if unit == "C" else (tenths - 32) * 10
+        exact = word.denominator == 1 and 0 <= word <= 0xFFFF
 
         def after():
             step = 1 / 18 if unit == "C" else 0.1
-            if abs(wh.target_temperature - t) > step + 1e-9:
-                res.fail("C13|readback|temperature", f"{what}: target_temperature reads {wh.target_temperature}")
-        return {"obj": wh, "method": "set_target_temperature", "args": (t,), "what": what, "kind": kind,
-                "exp": {"kind": "set", "pos": pair.items["SetpointG"].pos, "len": 2}, "after": after}
+            if abs(wh.target_temperature - t) > (1e-9 if exact else step + 1e-9):
+                res.fail(f"C13|readback|temperature{'|exact' if exact else ''}", f"{what}: target_temperature reads {wh.target_temperature}"
+                         + (f" although the device holds {t} exactly (word {int(word)})" if exact else ""))
+        exp = {"kind": "set", "pos": pair.items["SetpointG"].pos, "len": 2}
+        if exact:
+            exp["data"] = int(word).to_bytes(2, "big")
+        return {"obj": wh, "method": "set_target_temperature", "args": (t,), "what": what, "kind": kind, "exp": exp, "after": after}
     if kind == "unit":
         wh = fac.water_heater
         if "TempUnits" not in pair.items:
@@ -428,6 +450,13 @@ def _run_async(res, case, snap, pair, history, info):
             for _ in range(int(case.get("pre", 0))):
                 spa._protocol.get_and_increment_sequence_counter(True)   # a connection that has sent commands before (wrap at 255)
             pack_type = spa.pack_class.type
+            if case.get("active"):
+                from geckolib.config import set_config_mode
+                set_config_mode(True)      # what the facade selects while a pump or blower runs
+                await W.sleep(0.05)
+            peer.think = min(int(case.get("think_ms", 0)), 3500) / 1000.0
+            if peer.think or case.get("active"):
+                info["slow_or_active"] = True
 
             async def settle():
                 for _ in range(200):
@@ -579,4 +608,6 @@ def run_case(case) -> Result:
         res.label("device-absent-skipped")
     if info.get("overlap"):
         res.label("watercare-command-during-poll")
+    if info.get("slow_or_active"):
+        res.label("slow-acknowledgement-or-active-table")
     return res
